@@ -26,7 +26,7 @@ def main():
             dom = set(range(low, low + card))
         elif mode == 1:
             card = int(rng.integers(1, 8))
-            high = low + card - 1 + int(rng.integers(0, 10))
+            high = low + card - 1 + int(rng.choice([0, 0, 1, 3, 9]))      # saturated bounds half of the time
             kw = dict(cardinality=card, low=low, high=high, random_values=True)
             dom = set(range(low, high + 1))
         else:
@@ -46,6 +46,10 @@ def main():
                    obligations=['cc_generator.CategoricalClassification._generate_feature/ensures.default_domain'])
         if mode == 1 and len(set(x.tolist())) > kw['cardinality']:
             h.fail('_generate_feature.random_draw_cardinality', wit, f'{len(set(x.tolist()))} distinct values')
+        if mode == 1 and ensure and kw['cardinality'] <= size and len(set(x.tolist())) != kw['cardinality']:
+            # the random domain is a draw of `cardinality` DISTINCT values within the bounds; with representation enforced all occur
+            h.fail('_generate_feature.random_draw_has_the_requested_cardinality', wit,
+                   f'{len(set(x.tolist()))} distinct values, requested cardinality {kw["cardinality"]} with ensure_rep')
         if ensure and mode != 1 and len(dom) <= size and set(x.tolist()) != dom:
             h.fail('_generate_feature.ensures.every_value_represented', wit, f'missing {sorted(dom - set(x.tolist()))}',
                    obligations=['cc_generator.CategoricalClassification._generate_feature/ensures.every_default_value_represented'])
